@@ -206,10 +206,10 @@ func (b *TrieBucket) Suggest(prefix string, limit int) (rs []string) {
 
 // FindValuesByRegexp returns values by regexp expression.
 func (b *TrieBucket) FindValuesByRegexp(rp *regexp.Regexp, ids []uint32) []uint32 {
-	literalPrefix, _ := rp.LiteralPrefix()
-	literalPrefixByte := strutil.String2ByteSlice(literalPrefix)
+	// the literal prefix of a regexp is the prefix of a match, not of the value: a pattern which is not anchored
+	// matches anywhere in the value(as the memory store does), so the trie cannot be narrowed by it.
 	for _, kv := range b.kvs {
-		itr := kv.tree.NewPrefixIterator(literalPrefixByte)
+		itr := kv.tree.NewPrefixIterator(nil)
 		for itr.Valid() {
 			if rp.Match(itr.Key()) {
 				ids = append(ids, itr.Value())
